@@ -56,21 +56,29 @@ let () =
       let model_q = match q with
         | None -> None
         | Some qs ->
-          (match String.split_on_char ':' qs with
-           | "Q" :: lo :: hi :: _ ->
-             let lo = int_of_string lo and hi = int_of_string hi in
-             let qb = Buffer.create 256 in
-             Buffer.add_string qb (Printf.sprintf "Q:%d:%d:" lo hi);
-             for a = lo to hi do for c = a to hi do
-                 Buffer.add_char qb (if intersects !st (coqz_of_z (BZ.of_int a)) (coqz_of_z (BZ.of_int c)) then '1' else '0')
-               done done;
-             Buffer.add_char qb ':';
-             List.iter (fun (xl, xh) ->
-                 for a = lo to hi do for c = a to hi do
-                     Buffer.add_char qb (if can_update !st xl xh (coqz_of_z (BZ.of_int a)) (coqz_of_z (BZ.of_int c)) then '1' else '0')
-                   done done) (inorder (root !st));
-             Some (Buffer.contents qb)
-           | _ -> failwith "bad query part") in
+          (* the query set: Q:lo:hi = all a<=b within [lo,hi]; P:v1,v2,.. = all ordered pairs *)
+          let tag, qset = match String.split_on_char ':' qs with
+            | "Q" :: lo :: hi :: _ ->
+              let l = int_of_string lo and h = int_of_string hi in
+              let acc = ref [] in
+              for a = l to h do for c = a to h do
+                  acc := (coqz_of_z (BZ.of_int a), coqz_of_z (BZ.of_int c)) :: !acc done done;
+              Printf.sprintf "Q:%s:%s:" lo hi, List.rev !acc
+            | "P" :: vals :: _ ->
+              let vs = List.map cz (String.split_on_char ',' vals) in
+              Printf.sprintf "P:%s:" vals,
+              List.concat_map (fun a -> List.map (fun c -> (a, c)) vs) vs
+            | _ -> failwith "bad query part" in
+          let qb = Buffer.create 256 in
+          Buffer.add_string qb tag;
+          List.iter (fun (a, c) ->
+              Buffer.add_char qb (if intersects !st a c then '1' else '0')) qset;
+          Buffer.add_char qb ':';
+          List.iter (fun (xl, xh) ->
+              List.iter (fun (a, c) ->
+                  Buffer.add_char qb (if can_update !st xl xh a c then '1' else '0')) qset)
+            (inorder (root !st));
+          Some (Buffer.contents qb) in
       if model_obs <> obs || model_q <> q then begin
         incr bad;
         if !bad <= 20 then
